@@ -617,6 +617,7 @@ func (r *Runner) cmd(ctx context.Context, cm syntax.Command) {
 			r.cmd(ctx, cm.Else)
 		}
 	case *syntax.WhileClause:
+		var last exitStatus // status of the last completed run of the body
 		for !r.stop(ctx) {
 			oldNoErrExit := r.noErrExit
 			r.noErrExit = true
@@ -625,7 +626,15 @@ func (r *Runner) cmd(ctx context.Context, cm syntax.Command) {
 
 			stop := r.exit.ok() == cm.Until
 			r.exit.clear()
-			if stop || r.loopStmtsBroken(ctx, cm.Do) {
+			if stop {
+				if !r.exit.returning && !r.exit.exiting && !r.exit.fatalExit {
+					r.exit = last
+				}
+				break
+			}
+			broken := r.loopStmtsBroken(ctx, cm.Do)
+			last = r.exit
+			if broken {
 				break
 			}
 		}
